@@ -274,3 +274,36 @@ func H_C08_challenge_then_answer() {
 	vCheck(vBytesEq(msg, received), "answer/received-buffer-unchanged")
 	vCover("end")
 }
+
+// Non-ASCII names in the Unicode character set (concrete samples; flags and challenge symbolic): the user name is carried
+// as supplied, domain and workstation as supplied up to letter case (the library upper-cases them as text, never as bytes).
+func H_C08_authenticate_unicode_names() {
+	flags := vU32("flags") | NTLMSSP_NEGOTIATE_UNICODE
+	if vParam("ess") == 1 {
+		flags |= NTLMSSP_NEGOTIATE_EXTENDED_SESSIONSECURITY
+	} else {
+		flags &^= NTLMSSP_NEGOTIATE_EXTENDED_SESSIONSECURITY
+	}
+	ch := &ChallengeMessage{NegotiateFlags: flags}
+	copy(ch.ServerChallenge[:], vBytes("server", 8))
+	ch.TargetInfo = vBytes("ti", 4)
+	names := []string{"zakladš", "дом", "société", "愛子", "a\U0001D4B7c", "Ωmega"}
+	user := names[vParam("user")]
+	domain := names[vParam("dom")]
+	ws := names[(vParam("dom")+1)%len(names)]
+	msg, err := CreateAuthenticateMessage(ch, user, "pw", domain, ws)
+	vCheck(err == nil && len(msg) >= 88, "authenticate-unicode/ok")
+	if err != nil || len(msg) < 88 {
+		return
+	}
+	fDom, _, ok1 := c08field(msg, 28, "authenticate-unicode/domain")
+	fUser, _, ok2 := c08field(msg, 36, "authenticate-unicode/user")
+	fWs, _, ok3 := c08field(msg, 44, "authenticate-unicode/workstation")
+	if !ok1 || !ok2 || !ok3 {
+		return
+	}
+	vCheck(vBytesEq(fUser, refUTF16LE([]rune(user))), "authenticate-unicode/user-bytes-utf16le-as-supplied")
+	vCheck(vBytesEq(fDom, refUTF16LE(c02refUpper(domain))) || vBytesEq(fDom, refUTF16LE([]rune(domain))), "authenticate-unicode/domain-is-the-supplied-text-in-utf16le")
+	vCheck(vBytesEq(fWs, refUTF16LE(c02refUpper(ws))) || vBytesEq(fWs, refUTF16LE([]rune(ws))), "authenticate-unicode/workstation-is-the-supplied-text-in-utf16le")
+	vCover("end")
+}
